@@ -25,11 +25,24 @@ FACILITY = {
     'message-strip': '<xsl:strip-space elements="*"/><xsl:template match="/"><out><xsl:message>note</xsl:message><xsl:for-each select="//text()"><t><xsl:value-of select="."/></t></xsl:for-each></out></xsl:template>',
     'html-output': '<xsl:output method="html" indent="yes"/><xsl:template match="/"><html><head><title>t</title></head><body><xsl:for-each select="//*"><p class="{name()}"><xsl:value-of select="name()"/><br/></p></xsl:for-each></body></html></xsl:template>',
     'exslt': '<xsl:template match="/"><out xmlns:exsl="http://exslt.org/common" xmlns:math="http://exslt.org/math" xmlns:set="http://exslt.org/sets" xmlns:str="http://exslt.org/strings"><xsl:variable name="r"><a>1</a><a>5</a><a>3</a></xsl:variable><e n="{count(exsl:node-set($r)/a)}" m="{math:max(exsl:node-set($r)/a)}" d="{count(set:distinct(//*/@*))}" p="{str:padding(3, \'ab\')}"/></out></xsl:template>',
+    # state the process (not the stylesheet) builds lazily: numbering tables per script / language, collators, transcoders, message texts
+    'number-scripts': '<xsl:template match="/"><out><xsl:for-each select="//*"><n><xsl:number level="any" format="&#x3B1;" letter-value="traditional"/>|<xsl:number level="any" format="&#x3B1;" letter-value="alphabetic"/>|'
+                      '<xsl:number level="multiple" count="*" format="&#x3B1;.1.a.A.i.I.01" letter-value="traditional"/>|<xsl:number value="position() * 1234567" grouping-separator="," grouping-size="3"/>|<xsl:number level="any" format="i" lang="el"/>|'
+                      '<xsl:number level="any" format="A" lang="en"/>|<xsl:number value="position() * 37" format="&#x3B1;" letter-value="traditional"/></n></xsl:for-each></out></xsl:template>',
+    'number-unsupported': '<xsl:template match="/"><out><xsl:for-each select="//*"><n><xsl:number level="any" format="&#x5D0;" letter-value="traditional"/></n></xsl:for-each></out></xsl:template>',
+    'sort-lang': '<xsl:template match="/"><out><xsl:for-each select="//*"><xsl:sort select="name()" lang="fr" case-order="upper-first"/><xsl:sort select="@*" lang="en" case-order="lower-first" order="descending"/><s n="{name()}"/></xsl:for-each><xsl:for-each select="//*"><xsl:sort select="." lang="de"/><t p="{position()}"/></xsl:for-each></out></xsl:template>',
+    'encoding-latin1': '<xsl:output encoding="ISO-8859-1"/><xsl:template match="/"><out a="&#233;&#8364;"><xsl:copy-of select="/*"/><xsl:text>&#x20AC;&#x1F600;</xsl:text></out></xsl:template>',
+    'encoding-utf16': '<xsl:output encoding="UTF-16"/><xsl:template match="/"><out a="&#233;&#8364;"><xsl:copy-of select="/*"/></out></xsl:template>',
+    'encoding-1252-text': '<xsl:output method="text" encoding="windows-1252"/><xsl:template match="/">caf&#233; &#8364; <xsl:value-of select="/"/></xsl:template>',
+    'fails-terminate': '<xsl:template match="/"><out><xsl:copy-of select="/*/*[1]"/><xsl:message terminate="yes">stop <xsl:value-of select="name(/*)"/></xsl:message></out></xsl:template>',
+    'fails-extension': '<xsl:template match="/"><out xmlns:ext="urn:verif-none"><xsl:value-of select="ext:missing(1)"/></out></xsl:template>',
+    'warns': '<xsl:template match="/"><out><xsl:element name="1bad">x</xsl:element><xsl:attribute name="late">v</xsl:attribute><xsl:copy-of select="document(\'nowhere.xml\')"/><xsl:value-of select="format-number(1, \'#\', \'nodf\')"/></out></xsl:template>',
 }
+COLD_FIRST = ['number-scripts', 'number-unsupported', 'sort-lang', 'encoding-latin1', 'encoding-utf16', 'encoding-1252-text', 'fails-terminate', 'fails-extension', 'warns', 'number', 'format-number', 'exslt', 'functions', 'html-output', 'keys', 'id', 'document']
 EXTRA = '<extra><x a="1">one</x><y>two<z/></y><x a="2"/></extra>'
 
 
-def write_case(r, wd, avoid):
+def write_case(r, wd, avoid, cold=False):
     if os.path.isdir(wd):
         shutil.rmtree(wd)
     os.makedirs(wd)
@@ -40,10 +53,14 @@ def write_case(r, wd, avoid):
         open(os.path.join(wd, 'doc%d.xml' % j), 'w', encoding='utf-8').write(xml)
     open(os.path.join(wd, 'extra.xml'), 'w').write(EXTRA)
     sheets = []
-    fac = r.sample(sorted(FACILITY), r.choice([4, 6, 8]))
+    if cold:
+        # the first thing every thread does is sheet 0 on document 0: one facility per process gets its first use under contention
+        fac = [COLD_FIRST[(cold - 1) % len(COLD_FIRST)]] + r.sample(sorted(FACILITY), r.choice([1, 2]))
+    else:
+        fac = r.sample(sorted(FACILITY), r.choice([4, 6, 8]))
     for name in fac:
         sheets.append((name, (HEAD % '') + FACILITY[name] + '</xsl:stylesheet>'))
-    for _ in range(r.choice([1, 2, 3])):
+    for _ in range(0 if cold else r.choice([1, 2, 3])):
         xml, info = r.choice(docs)
         g = gen_xslt.SGen(r, info, avoid=avoid, max_templates=r.choice([4, 8]), body_depth=2)
         sheets.append(('generated', g.stylesheet()))
@@ -85,14 +102,18 @@ def tsan_reports(wd):
 def case(ctx, idx, res):
     r = rng_for(ctx.seed, 'c07', idx)
     wd = os.path.join(ctx.workdir, 'c07', 'case')
-    sheets, docs = write_case(r, wd, ctx.findings_avoid)
+    cold = idx % 2 == 1
+    sheets, docs = write_case(r, wd, ctx.findings_avoid, 1 + idx // 2 if cold else 0)
     threads = r.choice([2, 3, 4, 8, 8, 12, 16])
     iters = r.choice([10, 20, 40]) if ctx.tier == 'quick' else r.choice([20, 60, 150])
     yield_ = r.choice([0, 1, 1])
     seed = r.randrange(1, 1 << 30)
+    if cold:
+        threads, iters, yield_ = r.choice([4, 8, 12, 16]), r.choice([2, 3, 5]), 0
+        cold = 1 + r.choice([0, 0, 1, 2])        # source form of the common first transformation: shared native, shared Xerces-DOM backed, parsed per call
     env = sanitizer_env('tsan')
     env['TSAN_OPTIONS'] = 'halt_on_error=0:second_deadlock_stack=1:history_size=4:report_signal_unsafe=0:log_path=%s' % os.path.join(wd, 'tsan')
-    cmd = [exe_path('tsan', 'xvmt'), wd, str(threads), str(iters), str(seed), str(yield_)]
+    cmd = [exe_path('tsan', 'xvmt'), wd, str(threads), str(iters), str(seed), str(yield_), str(int(cold))]
     try:
         p = subprocess.run(cmd, capture_output=True, text=True, errors='replace', timeout=420, env=env, cwd=wd)
     except subprocess.TimeoutExpired:
@@ -111,6 +132,9 @@ def case(ctx, idx, res):
     done, mism, overlap, pairs = int(m.group(2)), int(m.group(3)), int(m.group(4)), int(m.group(5))
     res.evals = done
     res.count('runs')
+    res.count('cold_runs' if cold else 'warm_runs')
+    if cold:
+        res.count('cold_first_' + sheets[0][0])
     res.count('concurrent_transformations', done)
     res.count('threads_%d' % threads)
     res.count('max_overlap_seen_%d' % min(overlap, 16))
@@ -124,8 +148,8 @@ def case(ctx, idx, res):
         for tok in ov.group(1).split():
             a, b = tok.split(':')
             sig.add(('overlap', int(a)))
-    res.sigs = sig | set([('threads', threads, yield_)])
-    res.sample = {'threads': threads, 'iterations': iters, 'yield': yield_, 'max_overlap': overlap, 'sheets': names}
+    res.sigs = sig | set([('threads', threads, yield_)]) | (set([('cold', sheets[0][0])]) if cold else set())
+    res.sample = {'threads': threads, 'iterations': iters, 'yield': yield_, 'cold': cold, 'max_overlap': overlap, 'sheets': names}
     if 'NONDETERMINISTIC' in out:
         res.viol('sequential-nondeterministic', 'two sequential runs of the same pair differ: %s' % re.findall(r'NONDETERMINISTIC.*', out)[:3], payload)
     if mism:
@@ -144,13 +168,15 @@ def main():
     chk.rule = ('xvmt runs: 2-16 threads x 10-150 transformations each over 5-11 shared compiled stylesheets (12 hand-written ones reaching keys, xsl:number, document(), '
                 'format-number + decimal-format, sort, id(), variables / recursion, core functions, identity copy, strip-space + message, html output, EXSLT; plus generated '
                 'ones) x 2-3 shared documents, each supplied as shared native source, shared Xerces-DOM backed source (thread-safe liaison) or parsed per call. A case is '
-                'one process run; evaluations = concurrent transformations; distinct = distinct stylesheets / observed overlap degrees / thread counts.')
+                'one process run; every second run is cold: nothing is transformed before the threads start, they leave a barrier together and begin with the same stylesheet '
+                '(17 facilities in turn, incl. Greek traditional / alphabetic numbering, an unsupported numbering script, sort with lang, three output encodings, failing and warning stylesheets), so that state the process '
+                'builds on first use is built under contention, and the sequential results are computed afterwards. evaluations = concurrent transformations; distinct = distinct stylesheets / observed overlap degrees / thread counts.')
     chk.assumptions = ['ThreadSanitizer sees the library and the driver (both built with -fsanitize=thread); Xerces-C and ICU are not instrumented (no report arose from them on the unchanged tree)',
                        'schedules are those the kernel produces on an oversubscribed 16-core machine with randomized yields; no schedule enumeration']
     chk.ensure('tsan', 'xvmt')
-    n = 32 if chk.tier == 'quick' else 600
+    n = 64 if chk.tier == 'quick' else 640
     chk.run_cases('c07', 'case', range(n))
-    chk.finish(min_nontrivial=20, required_stats=('concurrent_transformations', 'facility_keys', 'facility_number', 'facility_document', 'facility_id', 'facility_sort', 'facility_format-number'))
+    chk.finish(min_nontrivial=20, required_stats=('concurrent_transformations', 'cold_runs', 'cold_first_number-scripts', 'cold_first_sort-lang', 'facility_keys', 'facility_number', 'facility_document', 'facility_id', 'facility_sort', 'facility_format-number'))
 
 
 if __name__ == '__main__':
